@@ -148,6 +148,7 @@ def ownership(rep, u):
     for lhs, rhs in core.assigned_lhs(aroot):
         var = core.strip_casts(lhs)
     paths = r_path.enum_paths(fn, apos[0])
+    bc_ids = core.result_locals(fn, {"tpt_msg_broadcast_send__int"})
     bad = []
     for p in paths:
         disposed = None
@@ -182,12 +183,20 @@ def ownership(rep, u):
                     except r_mpt.Unknown:
                         pass
                     pending_chain = None
-                if key(core.strip_casts(cond)).startswith("((cast)0==") and var["n"] in key(cond) and truth:
-                    disposed = "allocation failed"
-                if bcast and "tm_cnt" in key(cond):
+                vrefs = [x for x, _ in walk(cond) if x.get("k") == "ref" and x.get("id") == var["id"]]
+                if vrefs:
+                    # a test of the allocation result, in whatever spelling: the edge taken is the one a NULL result takes
                     try:
-                        # 0 == tm_cnt true: everything scheduled, workers own the record
-                        atom = [x for x, _ in walk(cond) if x.get("k") == "ref" and x["n"] == "tm_cnt"][0]
+                        v_null = r_mpt.eval_expr(cond, {id(x): 0 for x in vrefs})
+                        v_ok = r_mpt.eval_expr(cond, {id(x): 1 for x in vrefs})
+                        if bool(v_null) != bool(v_ok) and bool(v_null) == bool(truth):
+                            disposed = "allocation failed"
+                    except r_mpt.Unknown:
+                        pass
+                if bcast and any(x.get("k") == "ref" and x.get("id") in bc_ids for x, _ in walk(cond)):
+                    try:
+                        # 0 == <failed sends> true: everything scheduled, workers own the record
+                        atom = [x for x, _ in walk(cond) if x.get("k") == "ref" and x.get("id") in bc_ids][0]
                         v0 = r_mpt.eval_expr(cond, {id(atom): 0})
                         if bool(v0) == bool(truth):
                             disposed = "all sends scheduled (workers count down and complete)"
@@ -308,7 +317,8 @@ def completion(rep, u):
     # countdown: posting guarded by snapshot == 0
     fn = tp.need(u, "tpt_msg_active_thr_count_dec")
     if "tpt_msg_active_thr_count_dec" in users:
-        r_mpt.check_guard(rep, fn, "snapshot==0", lambda x, ps: x.get("k") == "ref" and x["n"] == "tm" and x.get("dk") == "local",
+        snap_ids = core.result_locals(fn, field_suffix=COUNT)
+        r_mpt.check_guard(rep, fn, "snapshot==0", lambda x, ps: x.get("k") == "ref" and x.get("id") in snap_ids and x.get("dk") == "local",
                           (0, 1, 2), (0,), targets=users["tpt_msg_active_thr_count_dec"], target_desc="completion post",
                           require_dominance=True)
         n += 1
